@@ -445,3 +445,11 @@ func c10QueryBody(rn *consensus.RaftNode, q *c10Query) {
 		}
 	})
 }
+
+// runtimeYield lets other goroutines run while the harness polls a goroutine state.
+func runtimeYield(spins int) {
+	runtime.Gosched()
+	if spins%50 == 49 {
+		time.Sleep(50 * time.Microsecond)
+	}
+}
